@@ -914,6 +914,15 @@ func backSlice(v ssa.Value, stop func(ssa.Value) bool) map[ssa.Value]bool {
 						addrs = append(addrs, y)
 					case *ssa.FieldAddr:
 						addrs = append(addrs, y)
+					case *ssa.Slice:
+						// a slice of the variable aliases it: what is copied into the slice is stored into the variable
+						if y.X == addrs[i] {
+							addrs = append(addrs, y)
+						}
+					case *ssa.Call:
+						if bi, ok := y.Call.Value.(*ssa.Builtin); ok && bi.Name() == "copy" && len(y.Call.Args) == 2 && y.Call.Args[0] == addrs[i] {
+							walk(y.Call.Args[1])
+						}
 					}
 				}
 			}
